@@ -1,0 +1,26 @@
+//go:build verif
+
+package boltz
+
+import "sync/atomic"
+
+// Verification hook (build tag "verif" only): lets a test harness inject a failure at, or
+// stretch the time spent in, the storage write primitives. With the tag off verifHook is a no-op.
+var verifHookF atomic.Pointer[func(point string) error]
+
+// VerifSetHook installs f (nil removes it). f is called with the name of the hook point; a
+// non-nil result is recorded exactly as a failed bbolt call at that point would be.
+func VerifSetHook(f func(point string) error) {
+	if f == nil {
+		verifHookF.Store(nil)
+		return
+	}
+	verifHookF.Store(&f)
+}
+
+func verifHook(point string) error {
+	if f := verifHookF.Load(); f != nil {
+		return (*f)(point)
+	}
+	return nil
+}
